@@ -10,7 +10,7 @@
 #include <string.h>
 enum StmtKind { S_NONE = 0, S_SEL_VERSION, S_SEL_ITER, S_UPD_ITER, S_FIND_KEYID, S_FIND_KEYNAME, S_INS_KEY, S_INS_RESULT, S_DEL_KEY, S_FIND_RESULT, S_FAST_FIND_RESULT, S_KEYS_WITH_RESULT, S_SEL_KEYS };
 #define MAXB 4
-struct Blob { unsigned char b[16]; int n; bool isnull; };
+struct Blob { unsigned char b[17]; int n; bool isnull; };     // b[n] == 0 always: SQLite guarantees a terminator after the bytes sqlite3_column_text / _blob return
 struct KeyRow { bool used; long long id; Blob key; };
 struct ResRow { bool used; long long key_id; Blob value; long long signature, built_at, computed_at; double start, end; Blob deps; };
 static struct { bool exists; int version; unsigned client_version; long long iteration; bool tables; } m_info;
@@ -23,6 +23,16 @@ struct sqlite3_stmt { int kind; long long i64[9]; double dbl[9]; Blob blob[9]; i
 static bool sqlIs(const char* a, const char* b) { return strcmp(a, b) == 0; }
 static void mutation() { if (!m_inTxn) m_mutationsOutsideTxn++; }
 // (rows are named by index, never by pointer difference: symex does not fold `p - base`, and a symbolic row index makes every column symbolic)
+// The rows keep the key bytes as the CONSTANTS of the harness's key table (after asserting that these are the bytes given):
+// what comes back through sqlite3_column_text is then a constant string for symex, so that e.g. a C-string read of it
+// has a concrete length instead of forking on every byte.
+extern unsigned char g_keyBytes[3][4]; extern unsigned g_keyLen[3];
+static void canonKey(Blob& k) {
+  int e = -1; for (int t = 0; t < 3; t++) if ((int)g_keyLen[t] == k.n) e = t;
+  VF_ASSERT(e >= 0, "harness: only the keys of this query are stored (outside bound)"); if (e < 0) VF_STOP();
+  for (int j = 0; j < 4; j++) if (j < k.n) { VF_ASSERT(k.b[j] == g_keyBytes[e][j], "a key is stored with the bytes the engine gave"); k.b[j] = g_keyBytes[e][j]; }
+  k.b[k.n] = 0;
+}
 static int keyIdxById(long long id) { for (int i = 0; i < 4; i++) if (m_keys[i].used && m_keys[i].id == id) return i; return -1; }
 // Key lookup: the harness uses keys of pairwise DISTINCT LENGTHS, so the row is selected by length (a concrete number for symex)
 // and the byte comparison - which symex cannot fold once the bytes went through std::string copies - is an ASSERTION about the
@@ -42,6 +52,7 @@ int sqlite3_threadsafe(void) { return 1; }
 int sqlite3_open(const char* path, sqlite3** out) { m_opens++; m_open = true; *out = &m_db; return SQLITE_OK; }
 int sqlite3_close(sqlite3*) { m_open = false; return SQLITE_OK; }
 int sqlite3_busy_timeout(sqlite3*, int) { return SQLITE_OK; }
+int sqlite3_get_autocommit(sqlite3*) { return m_inTxn ? 0 : 1; }
 int sqlite3_errcode(sqlite3*) { return SQLITE_ERROR; }
 const char* sqlite3_errmsg(sqlite3*) { return "e"; }
 const char* sqlite3_errstr(int) { return "e"; }
@@ -96,7 +107,7 @@ int sqlite3_reset(sqlite3_stmt* s) { s->done = false; s->cursor = 0; return SQLI
 int sqlite3_clear_bindings(sqlite3_stmt* s) { for (int i = 0; i < 9; i++) { s->i64[i] = 0; s->blob[i].n = 0; s->blob[i].isnull = true; } return SQLITE_OK; }
 int sqlite3_bind_int64(sqlite3_stmt* s, int i, sqlite3_int64 v) { s->i64[i] = v; return SQLITE_OK; }
 int sqlite3_bind_double(sqlite3_stmt* s, int i, double v) { s->dbl[i] = v; return SQLITE_OK; }
-static int bindBytes(sqlite3_stmt* s, int i, const void* p, int n) { VF_ASSERT(n >= 0 && n <= 16, "model: blob longer than 16 bytes (outside bound)"); if (n < 0 || n > 16) VF_STOP(); s->blob[i].n = n; s->blob[i].isnull = false; for (int k = 0; k < n; k++) s->blob[i].b[k] = ((const unsigned char*)p)[k]; return SQLITE_OK; }
+static int bindBytes(sqlite3_stmt* s, int i, const void* p, int n) { VF_ASSERT(n >= 0 && n <= 16, "model: blob longer than 16 bytes (outside bound)"); if (n < 0 || n > 16) VF_STOP(); s->blob[i].n = n; s->blob[i].isnull = false; for (int k = 0; k < n; k++) s->blob[i].b[k] = ((const unsigned char*)p)[k]; s->blob[i].b[n] = 0; return SQLITE_OK; }
 int sqlite3_bind_text(sqlite3_stmt* s, int i, const char* p, int n, void (*)(void*)) { return bindBytes(s, i, p, n); }
 int sqlite3_bind_blob(sqlite3_stmt* s, int i, const void* p, int n, void (*)(void*)) { return bindBytes(s, i, p, n); }
 sqlite3_int64 sqlite3_last_insert_rowid(sqlite3*) { return m_lastRowid; }
@@ -107,7 +118,7 @@ int sqlite3_step(sqlite3_stmt* s) {
   case S_UPD_ITER: mutation(); m_info.iteration = s->i64[1]; return SQLITE_DONE;
   case S_FIND_KEYID: { int k = keyIdxByBlob(s->blob[1]); if (k < 0) return SQLITE_DONE; s->row = k; return SQLITE_ROW; }
   case S_FIND_KEYNAME: { int k = keyIdxById(s->i64[1]); if (k < 0) return SQLITE_DONE; s->row = k; return SQLITE_ROW; }
-  case S_INS_KEY: { mutation(); if (keyByBlob(s->blob[1])) return SQLITE_DONE; for (int i = 0; i < 4; i++) if (!m_keys[i].used) { m_keys[i].used = true; m_keys[i].id = m_nextKeyId++; m_keys[i].key = s->blob[1]; m_lastRowid = m_keys[i].id; return SQLITE_DONE; }
+  case S_INS_KEY: { mutation(); if (keyByBlob(s->blob[1])) return SQLITE_DONE; for (int i = 0; i < 4; i++) if (!m_keys[i].used) { m_keys[i].used = true; m_keys[i].id = m_nextKeyId++; m_keys[i].key = s->blob[1]; canonKey(m_keys[i].key); m_lastRowid = m_keys[i].id; return SQLITE_DONE; }
                     VF_ASSERT(false, "model: key table full (outside bound)"); VF_STOP(); return SQLITE_FULL; }
   case S_INS_RESULT: {
     mutation();
